@@ -34,6 +34,10 @@ CONSTANTS Flows,        \* positive integers
           RuleSets,     \* rule sets a reload may install (each a set of <<flow, incoming>>)
           InitRules,
           Reloads,      \* BOOLEAN: explore reloads
+          Cfgs,         \* firewall configurations a reload may install WITHOUT naming the rule set: records [any, txt] =
+                        \* firewall.default_local_cidr_any and the text of the rule list ({} = not explored)
+          InitCfg,      \* the configuration at start (any value when Cfgs = {})
+          EffOf(_),     \* the packets a configuration allows: the EFFECTIVE rules (text + options + certificate)
           VerMod,       \* width of the rules version counter (65536 in the code)
           Gaps,         \* clock steps
           MaxItems,     \* exploration bound on the number of items in the wheel
@@ -48,6 +52,7 @@ WSpan == Max(TO.tcp, Max(TO.udp, TO.other))       \* NewFirewall: tmax
 Timeout(f) == TO[ProtoOf[f]]
 
 VARIABLES now,
+          cfg,                           \* the installed configuration (only used with Cfgs; rules = EffOf(cfg) then)
           rules, est, origs, last,       \* reference
           conns, tw, ver,                \* machine
           res,                           \* verdict of the latest packet: TRUE = passed
@@ -55,7 +60,7 @@ VARIABLES now,
           why,                           \* if not: "untracked" / "idle" / "rules" (which part of the statement forbids it)
           keeps                          \* the latest reload, if it left the rules as they were, cut no flow
 
-vars == <<now, rules, est, origs, last, conns, tw, ver, res, may, why, keeps>>
+vars == <<now, cfg, rules, est, origs, last, conns, tw, ver, res, may, why, keeps>>
 
 TW == INSTANCE TimerWheel WITH TickD <- WTick, Span <- WSpan, Items <- {}, Timeouts <- {}, Gaps <- {}, CacheMax <- 0,
           StaleAdds <- TRUE, now <- now, adv <- 0, w <- tw, st <- <<>>, addedAt <- <<>>, tmo <- <<>>, fresh <- <<>>,
@@ -133,13 +138,13 @@ Cur == [c |-> conns, t |-> tw, r |-> rules, v |-> ver]
 DoPkt(f, inc) == DoPktS(Cur, f, inc)
 
 -----------------------------------------------------------------------------
-Init == /\ now = 0 /\ rules = InitRules
+Init == /\ now = 0 /\ rules = InitRules /\ cfg = InitCfg
         /\ est = [f \in Flows |-> FALSE] /\ origs = [f \in Flows |-> {}] /\ last = [f \in Flows |-> 0]
         /\ conns = NoConns /\ tw = TW!WNew /\ ver = 0
         /\ res = FALSE /\ may = TRUE /\ why = "ok" /\ keeps = TRUE
 
 Sleep(d) == /\ now' = now + d
-            /\ UNCHANGED <<rules, est, origs, last, conns, tw, ver, res, may, why, keeps>>
+            /\ UNCHANGED <<cfg, rules, est, origs, last, conns, tw, ver, res, may, why, keeps>>
 
 Pkt(f, inc) == LET r == DoPkt(f, inc) IN
                /\ conns' = r.c /\ tw' = r.t
@@ -147,26 +152,37 @@ Pkt(f, inc) == LET r == DoPkt(f, inc) IN
                /\ may' = RefMayPass(f, inc)
                /\ why' = RefWhyNot(f, inc)
                /\ RefAfter(f, inc, r.pass)
-               /\ UNCHANGED <<now, rules, ver, keeps>>
+               /\ UNCHANGED <<now, cfg, rules, ver, keeps>>
 
-\* Interface.reloadFirewall with a changed firewall section (an unchanged section is a no-op)
-Reload(r) == /\ Reloads
-             /\ rules' = r
-             /\ LET v1 == (ver + 1) % VerMod IN
-                IF v1 # 0 THEN ver' = v1 /\ UNCHANGED <<conns, tw>>
-                ELSE IF WrapKeeps
-                     THEN /\ ver' = 1                                                  \* 0 is never a live version again
-                          /\ conns' = [q \in DOMAIN conns |-> [conns[q] EXCEPT !.ver = 0]]
-                          /\ UNCHANGED tw
-                     ELSE /\ ver' = 0 /\ conns' = NoConns /\ tw' = TW!WNew            \* "be safe and just reset conntrack"
-             /\ keeps' = (r = rules =>
-                          \A f \in Flows, inc \in BOOLEAN :
-                              DoPkt(f, inc).pass => DoPktS([c |-> conns', t |-> tw', r |-> r, v |-> ver'], f, inc).pass)
-             /\ UNCHANGED <<now, est, origs, last, res, may, why>>
+\* Interface.reloadFirewall with a changed firewall section (an unchanged section is a no-op): installs the rules r
+ReloadTo(r) == /\ Reloads
+               /\ rules' = r
+               /\ LET v1 == (ver + 1) % VerMod IN
+                  IF v1 # 0 THEN ver' = v1 /\ UNCHANGED <<conns, tw>>
+                  ELSE IF WrapKeeps
+                       THEN /\ ver' = 1                                                \* 0 is never a live version again
+                            /\ conns' = [q \in DOMAIN conns |-> [conns[q] EXCEPT !.ver = 0]]
+                            /\ UNCHANGED tw
+                       ELSE /\ ver' = 0 /\ conns' = NoConns /\ tw' = TW!WNew          \* "be safe and just reset conntrack"
+               /\ keeps' = (r = rules =>
+                            \A f \in Flows, inc \in BOOLEAN :
+                                DoPkt(f, inc).pass => DoPktS([c |-> conns', t |-> tw', r |-> r, v |-> ver'], f, inc).pass)
+               /\ UNCHANGED <<now, est, origs, last, res, may, why>>
+
+\* a reload named by the rule set it installs
+Reload(r) == ReloadTo(r) /\ UNCHANGED cfg
+
+\* a reload named by the configuration: what it allows follows from the rule text AND from options that change the
+\* meaning of unchanged text (a rule without local_cidr covers the unsafe networks only with default_local_cidr_any).
+\* Whatever changed in the section, the flows are judged by the effective rules.
+ReloadCfg(c) == /\ c # cfg
+                /\ cfg' = c
+                /\ ReloadTo(EffOf(c))
 
 Next == \/ \E d \in Gaps : Sleep(d)
         \/ \E f \in Flows, inc \in BOOLEAN : Pkt(f, inc)
         \/ \E r \in RuleSets : Reload(r)
+        \/ \E c \in Cfgs : ReloadCfg(c)
 
 Spec == Init /\ [][Next]_vars
 
@@ -197,7 +213,7 @@ NormD == IF D >= (TW!L + 1) * WTick THEN (TW!L + 1) * WTick + (D % WTick) ELSE D
 RotSlots == [k \in 0..TW!L-1 |-> tw.slots[(tw.cur + k) % TW!L]]
 ConnView == [f \in DOMAIN conns |-> [conns[f] EXCEPT !.expires = Max(@ - now, 0)]]
 RefView(f) == IF Tracked(f) THEN <<TRUE, origs[f], IF IdleMatters THEN now - last[f] ELSE 0>> ELSE <<FALSE>>
-View == <<NormD, RotSlots, tw.exp, ConnView, ver, rules, [f \in Flows |-> RefView(f)], res, may, why, keeps>>
+View == <<NormD, RotSlots, tw.exp, ConnView, ver, cfg, rules, [f \in Flows |-> RefView(f)], res, may, why, keeps>>
 
 -----------------------------------------------------------------------------
 (* Values used by the configurations (cfg files cannot write functions and sets of tuples) *)
@@ -223,4 +239,19 @@ AllRules1 == SUBSET ({1} \X BOOLEAN)
 NoGaps    == {}
 \* C19, smaller: flow 1 opened from here, flow 2 by the peer; reloads add/remove those two rules and the reply rules
 SomeRules2 == {{<<1, FALSE>>, <<2, TRUE>>}, {<<2, TRUE>>}, {<<1, FALSE>>}, {<<1, TRUE>>, <<2, TRUE>>}, {}}
+\* configurations without a meaning of their own (graphs whose reloads name the rule set)
+NoCfgs == {}
+EffNone(c) == {}
+\* C19, effective semantics: flow 1 goes to an own address, flow 2 to an address in an unsafe network of the certificate,
+\* otherwise the same tuple.  Rule texts: "i" one inbound rule without local_cidr, "io" that and an outbound rule without
+\* local_cidr, "iu" one inbound rule with local_cidr = the unsafe network, "none" no rule.
+SemCfgs == [any : BOOLEAN, txt : {"i", "io", "iu", "none"}]
+SemCfgs3 == [any : BOOLEAN, txt : {"i", "io", "none"}]          \* quick tier
+EffSem(c) == LET own == {1} unsafe == IF c.any THEN {2} ELSE {} IN
+             CASE c.txt = "i"    -> (own \cup unsafe) \X {TRUE}
+               [] c.txt = "io"   -> (own \cup unsafe) \X BOOLEAN
+               [] c.txt = "iu"   -> {<<2, TRUE>>}
+               [] c.txt = "none" -> {}
+SemInit == [any |-> TRUE, txt |-> "i"]
+SemInitRules == EffSem(SemInit)
 =============================================================================
